@@ -348,6 +348,18 @@ class ConnRun:
 
         self.inject("UserSend", {"n": name}, fn)
 
+    def ev_cancel_op(self, op: str):
+        """The caller cancels the task of its own pending start / finish / disconnect."""
+
+        def fn():
+            for o in self.w.ops.values():
+                if getattr(o, "base", None) == op and not o.task.done():
+                    o.task.cancel()
+                    return None
+            return False
+
+        self.inject("UserCancel", {"op": op}, fn)
+
     def ev_sub(self, id_: int, kind: str, script: str):
         conn = self.w.conn
 
@@ -519,7 +531,8 @@ def random_schedule(rng: random.Random, cfg: dict, n_events: int, p_fault: float
         return rng.choice(
             [("ev", "force"), ("ev", "disconnect"), ("ev", "eof"), ("ev", "reset"), ("ev", "writefail", True),
              ("ev", "junk", rng.choice(("ProtocolAPIError", "RequiresEncryptionAPIError"))),
-             ("ev", "chunk", [rng.choice(CLOSERS)]), ("ev", "start"), ("tick",)]
+             ("ev", "chunk", [rng.choice(CLOSERS)]), ("ev", "start"), ("tick",),
+             ("ev", "cancel_op", rng.choice(("start", "finish", "disconnect")))]
         )
 
     story = [("ev", "start"), ("ev", "resolve", "ok" if rng.random() > p_fault / 3 else "err"),
@@ -595,6 +608,9 @@ CLOSERS_SYS = [
     [("ev", "writefail", True), ("ev", "chunk", [{"k": "pingreq"}, {"k": "A", "key": 1}])],
     [("tick",)],
     [("ev", "chunk", [{"k": "discreq"}]), ("ev", "chunk", [{"k": "A", "key": 1}])],
+    [("ev", "cancel_op", "start")],
+    [("ev", "cancel_op", "finish")],
+    [("ev", "disconnect"), ("iter", 1), ("ev", "cancel_op", "disconnect")],
 ]
 GAPS_SYS = [[], [("iter", 1)], [("idle",)]]
 
